@@ -439,8 +439,55 @@ def polarity(prog: Program) -> RuleResult:
                 )
             else:
                 res.ok(construct, f"replace when {show(residual)}")
-    # the equality branch must not depend on the merge policy and must compare with ==
-    res.floor(6)
+    # (d) explicit initial values given to Entry(...) inside the module agree with the merge policy passed along
+    n_ctor = 0
+    for qual, fn in prog.defs(DP).items():
+        if not isinstance(fn, (ast.FunctionDef, ast.AsyncFunctionDef)):
+            continue
+        for call in walk_no_nested(fn):
+            if not (isinstance(call, ast.Call) and dotted(call.func) == "Entry"):
+                continue
+            n_ctor += 1
+            construct = f"{DP}:{qual}/Entry-construction#{n_ctor}"
+            args = list(call.args)
+            kws = {k.arg: k.value for k in call.keywords if k.arg}
+            merge = kws.get("merge_policy", args[2] if len(args) > 2 else None)
+            value = kws.get("value", args[0] if args else None)
+            first_is_policy = value is not None and (
+                (dotted(value) or "").startswith("MergePolicy.") or (dotted(value) or "").endswith("merge_policy")
+            )
+            if len(args) + len(kws) == 2 and merge is None:
+                if first_is_policy:
+                    res.ok(construct, f"default-initialised from the policies: {short(call, 70)}")
+                else:
+                    res.fail(construct, f"`{short(call, 70)}`: two-argument form whose first argument is not a merge policy", mod, call)
+                continue
+            if value is None:
+                raise AnalysisError(f"{construct}: `{short(call)}` not understood")
+            signs = {pol: _eval_inf(value, pol, policy_param_names=("merge_policy", "_merge_policy")) for pol in ("MIN", "MAX")}
+            merge_const = (dotted(merge) or "") if merge is not None else "MergePolicy.MIN"  # default of the constructor
+            if merge_const.startswith("MergePolicy."):
+                pol = merge_const.split(".", 1)[1]
+                want = 1 if pol == "MIN" else -1
+                if signs[pol] is None or signs[pol] == want:
+                    res.ok(construct, f"{short(call, 70)}")
+                else:
+                    res.fail(construct, f"`{short(call, 70)}` starts a {pol} entry from the best possible value instead of the worst", mod, call)
+                continue
+            bad = [pol for pol, want in (("MIN", 1), ("MAX", -1)) if signs[pol] is not None and signs[pol] != want]
+            if bad:
+                res.fail(
+                    construct,
+                    f"`{short(call, 80)}` passes the merge policy on but starts from `{short(value)}` whatever the policy: "
+                    f"under {bad[0]} no candidate can ever improve on it",
+                    mod,
+                    call,
+                )
+            else:
+                res.ok(construct, f"{short(call, 70)}")
+    if n_ctor < 3:
+        raise AnalysisError(f"POLARITY: only {n_ctor} Entry(...) constructions found in the module")
+    res.floor(9)
     return res
 
 
